@@ -273,3 +273,19 @@ reg(
     TECHNIQUE="runtime monitoring of socket timeout values on a virtual clock against reference arithmetic (full configuration grid)",
     REQUIRED_MONITORS={"quick": {"request": 2000, "connect_timeout": 1000, "read_timeout": 1000, "invalid_rejected": 30}, "thorough": {"request": 20000, "connect_timeout": 10000, "read_timeout": 10000, "invalid_rejected": 30}},
 )
+
+reg(
+    "C15",
+    RULE="http/https URLs that PoolManager accepts: 17 host forms (names in several casings, trailing dot, IPv4, bracketed IPv6 with and without zone, IDN as U-label / upper-case / A-label) x 8 port forms (none, explicit default, odd, 0, 65535, leading zeros) x http/https x direct / through a proxy (forwarded absolute-form or CONNECT tunnel); userinfo x path x query x fragment forms (empty path with query, dot segments, spaces, non-ASCII, percent forms); case / explicit-default-port variants of one URL; random assemblies; a case is (URL, route); all non-trivial",
+    ASSUMPTIONS=COMMON_ASSUMPTIONS + [
+        "the TLS server name is observed at the innermost wrap call (urllib3.connection.ssl_wrap_socket replaced by a recorder, everything above it is the real code); no real handshake is made here (C07/C09 do that)",
+        "oracle decisions fixed by the wording: dial host keeps a trailing dot and the zone id but never brackets; Host is the host without zone, bracketed for IPv6, trailing dot either, port appended iff not the scheme default; TLS server name has no brackets, zone or trailing dot",
+        "the request target is compared modulo percent-encoding (and, when the URL path contains dot segments, modulo repeated slashes)",
+    ],
+    SHARDS={"quick": 8, "thorough": 16},
+    BUDGET={"quick": 60, "thorough": 420},
+    LEVEL_TEXT="Runtime monitoring of four independently derived observables per URL on the in-memory network (dial address, Host header parsed by the strict request parser, server name handed to the TLS layer, request target) against an independent reading of the URL, plus pool identity and byte-identity for case/default-port variants.",
+    LEVEL_NOTE="Trusts the reference URL reader shared with C14 and the idna package for IDN hosts.",
+    TECHNIQUE="relational runtime monitoring: consistency of dial address, Host header, TLS server name and request target with an independent URL reading",
+    REQUIRED_MONITORS={"quick": {"url": 1500, "dial": 1000, "host_header": 1000, "request_target": 1000, "tls_server_name": 40, "same_pool": 5, "manager_sequence": 6}, "thorough": {"url": 20000, "tls_server_name": 1000}},
+)
